@@ -462,6 +462,37 @@ CHECKS['C07']['text'] = (
     'sumc_weighted_vi. No optimality theorem for group L1-L2 and vector Huber (executed model only), nuclear norm and KL cross '
     'entropy (oracle only); Linf / l1-ball on ARRAY-weighted spaces is the open finding C07-F1 (linf_array_weighted_fails).')
 
+CHECKS['C01']['technique'] = ('Lean 4 theorems over programs regenerated from the Python AST (dispatch, BLAS predicate, argument checks) + '
+                              'statement-level models of the element operators + exact differential correspondence')
+CHECKS['C01']['text'] = (
+    '21 theorems. About definitions EXTRACTED from the source on every run: lincomb_correct / _frame / _out_independent (any '
+    'commutative ring, any size, any array descriptor = dtypes and contiguity flags, any buffer ids i.e. all 5 identity-alias '
+    'patterns, all ring scalars, all contents: _lincomb_impl incl. its zero guard, regime selection and recursive re-entry yields '
+    'out = a*x1+b*x2 entry-wise from the pre-state and touches nothing else), blas_applicable_sound and blas_writes_through (the '
+    'extracted _blas_is_applicable implies that out.ravel(order) is a view, so BLAS writes reach out), extracted_front_is_model '
+    'and lincomb_front_rejects (the extracted argument checks of LinearSpace.lincomb reach _lincomb iff the call is well-formed), '
+    'lincomb_correct_executed_instance (the theorem applied to the Gaussian-rational instance the driver runs; CommRing CRat '
+    'proved). Statement-level hand models of odl/set/space.py from the selected branch on: elem_op_correct (every '
+    'LinearSpaceElement operator incl. reflected, in-place, other-is-self; division claimed where DivOK holds; '
+    'div_by_zero_scalar_raises), ipow_correct / ipow_int_correct (x **= p for every integer p by the code\'s recursion), '
+    'plincomb_correct (ProductSpace._lincomb over part buffers when no part object occurs twice or crosswise). The element '
+    'layer is closed by theorem for tensor (and delegating discretized) spaces only; for product spaces, NumpyTensor / '
+    'DiscretizedSpace overrides (__ipow__, copy), array-like operand coercion and power-space broadcasting it is tied by '
+    'correspondence / oracle only. Integer dtypes are claimed with integer scalars (open finding C01-F2: non-integer field '
+    'scalars on integer spaces truncate silently below 100 entries).')
+CHECKS['C01']['note'] = (
+    'translators tools/extract/lincomb.py (AST of _lincomb_impl and _blas_is_applicable -> Gen/LincombTree.lean) and '
+    'tools/extract/lincomb_front.py (AST of LinearSpace.lincomb -> Gen/LincombFront.lean); tiny grammars, anything else is a broken '
+    'obligation. Correspondence (exact, dyadic grid): space.lincomb on real NumpyTensor elements vs the Lean execution on the '
+    'descriptor read from the actual arrays (model regime/leaf reported; for > 400 entries the entry-wise model is compared on a '
+    'sample of entries while the oracle checks every entry), the extracted BLAS predicate vs the real _blas_is_applicable on the '
+    'same arrays, every leaf of the dispatch in the fallback AND the BLAS regime (expected-branch list from the driver; an unhit '
+    'leaf fails the thorough tier), strided large outputs for every alias pattern, NaN-poisoned operands for a=b=0, malformed '
+    'calls, element operators and product-space lincomb vs the statement-level models. Because the model provably equals the '
+    'specification, the value comparison of the lincomb stream coincides with the oracle a*x1+b*x2; what the correspondence adds '
+    'is the BLAS predicate, regime and leaf bookkeeping and the statement-level element models. Rounding, BLAS and NumPy ufunc '
+    'internals are modelled as exact entry-wise maps; identity aliasing only (elements sharing part objects are outside).')
+
 NOT_YET = {}
 
 
